@@ -216,6 +216,34 @@ pub fn groups() -> ZooLang {
     }
 }
 
+/// Reserved-word sets: `if` and `var` are reserved everywhere except in property position (after `.` and before `:`),
+/// where only `var` is; so `a.if;` and `{ if: x, };` are fine while `a.var;` is not.
+pub fn resv() -> ZooLang {
+    let e = || sym("_expr");
+    let g = G::new("resv")
+        .word("identifier")
+        .reserved_set("global", &["if", "var"])
+        .reserved_set("property", &["var"])
+        .rule("program", rep(sym("_statement")))
+        .rule("_statement", choice(vec![sym("var_decl"), sym("if_stmt"), sym("expr_stmt")]))
+        .rule("var_decl", seq(vec![s("var"), field("name", sym("identifier")), s("="), e(), s(";")]))
+        .rule("if_stmt", seq(vec![s("if"), sym("paren"), sym("block")]))
+        .rule("block", seq(vec![s("{"), rep(sym("_statement")), s("}")]))
+        .rule("expr_stmt", seq(vec![e(), s(";")]))
+        .rule("_expr", choice(vec![sym("identifier"), sym("paren"), sym("member"), sym("object")]))
+        .rule("paren", seq(vec![s("("), e(), s(")")]))
+        .rule("member", prec_left(1, seq(vec![field("object", e()), s("."), field("property", reserved("property", sym("identifier")))])))
+        .rule("object", seq(vec![s("{"), rep(seq(vec![sym("pair"), s(",")])), s("}")]))
+        .rule("pair", seq(vec![field("key", reserved("property", sym("identifier"))), s(":"), field("value", e())]))
+        .rule("identifier", pat("[a-z_]+"));
+    ZooLang {
+        name: "resv", spec: spec(g, None),
+        lexemes: vec!["if", "var", "a", ".", ":", ",", ";", "{", "}", "(", ")", "=", " "],
+        seeds: vec!["", "a;", "var a = b;", "a.if;", "a.var;", "if (a) { b; }", "{ if: a, b: c, };", "{ var: a, };", "var if = a;", "if.a;", "a.if.b;", "var a = { if: b.if, };", "iff; vara; a.iff;", "if (a.if) { var b = a; }"],
+        skippable: b" \t\r\n", has_scanner: false,
+    }
+}
+
 pub const INDENT_SCANNER: &str = include_str!("../../zoo/indent_scanner.c");
 pub const PSTRING_SCANNER: &str = include_str!("../../zoo/pstring_scanner.c");
 
@@ -348,13 +376,13 @@ pub fn fixture(name: &'static str, lexemes: Vec<&'static str>, seeds: Vec<&'stat
 }
 
 pub fn core_zoo() -> Vec<ZooLang> {
-    vec![arith(), stmts(), jsonish(), glr(), lexla(), indent(), pstring(), lookfar()]
+    vec![arith(), stmts(), jsonish(), glr(), lexla(), indent(), pstring(), lookfar(), resv()]
 }
 
 pub fn by_name(name: &str) -> Option<ZooLang> {
     match name {
         "arith" => Some(arith()), "stmts" => Some(stmts()), "jsonish" => Some(jsonish()), "glr" => Some(glr()), "lexla" => Some(lexla()),
-        "indent" => Some(indent()), "pstring" => Some(pstring()), "lookfar" => Some(lookfar()), "groups" => Some(groups()), "tmpl" => Some(tmpl()), "tagl" => Some(tagl()),
+        "indent" => Some(indent()), "pstring" => Some(pstring()), "lookfar" => Some(lookfar()), "groups" => Some(groups()), "resv" => Some(resv()), "tmpl" => Some(tmpl()), "tagl" => Some(tagl()),
         _ => None,
     }
 }
